@@ -151,7 +151,7 @@ def expected(d, flags, query, files, args):
 def job(payload):
     seed, count = payload
     d = common.get_driver()
-    exe = os.path.join(common.VERIF, "build", "asan", "dwgrep", "dwgrep")
+    exe = os.path.join(common.VERIF, "build", common.VARIANT, "dwgrep", "dwgrep")
     env = dict(os.environ); env.update(common.ASAN_ENV)
     rng = random.Random(seed)
     out = {"n": 0, "stdout_compared": 0, "status": {}, "bad": [], "samples": [], "nontrivial": 0}
